@@ -17,6 +17,12 @@ use std::time::Duration;
 
 const LONG: Duration = Duration::from_secs(3600);
 const BUDGET: usize = 200;
+thread_local! {
+    /// the budget of the benches of the set that is running: BUDGET, or more when the set's requests are
+    /// long themselves (paths of several hundred bytes) - a handler refuses requests above its budget,
+    /// and transfers that are refused alike cannot interfere visibly
+    static BENCH_BUDGET: std::cell::Cell<usize> = const { std::cell::Cell::new(BUDGET) };
+}
 
 #[derive(Clone, Debug)]
 pub struct Transfer {
@@ -145,7 +151,7 @@ struct Bench {
 
 impl Bench {
     fn new() -> Bench {
-        Bench { server: Server::new(BUDGET, LONG), next_id: 1 }
+        Bench { server: Server::new(BENCH_BUDGET.with(|b| b.get()), LONG), next_id: 1 }
     }
     /// first half: parse, intercept_request.  Completed here when the handler answers itself.
     fn phase_a(&mut self, t: &Transfer, i: usize) -> Result<Pending, (String, String)> {
@@ -311,6 +317,11 @@ fn sets(nreq: usize, three: bool) -> Vec<SetSpec> {
         SetSpec { name: "hash-collision-xor-fold([aa]-vs-[bb])", transfers: vec![upload_script(1, 3, &[b"aa"], 0, nreq, 0, "PUT [aa]"), upload_script(1, 3, &[b"bb"], 0, nreq, 0, "PUT [bb]")] },
         SetSpec { name: "same-ends-and-length([sensor-a1x]-vs-[sensor-b1x])", transfers: vec![download_script(1, &[b"sensor-a1x"], 0, nreq, "GET a"), download_script(1, &[b"sensor-b1x"], 0, nreq, "GET b")] },
         SetSpec { name: "long-common-prefix(300B)", transfers: vec![upload_script(1, 3, &[&[b'k'; 300][..], b"1"], 0, nreq, 0, "PUT k..,1"), upload_script(1, 3, &[&[b'k'; 300][..], b"2"], 0, nreq, 0, "PUT k..,2")] },
+        // a flattened key with one-byte length prefixes: a 257-byte segment whose length byte wraps to 1
+        SetSpec { name: "length-prefix-wrap(257B-segment-vs-[f,a*127,b*127])", transfers: vec![download_script(1, &[&{ let mut v = vec![b'f', 0x7f]; v.extend_from_slice(&[b'a'; 127]); v.push(0x7f); v.extend_from_slice(&[b'b'; 127]); v }[..]], 0, nreq, "GET [257B]"), download_script(1, &[b"f", &[b'a'; 127][..], &[b'b'; 127][..]], 0, nreq, "GET [f,a*127,b*127]")] },
+        // segments that are not UTF-8 have no string form; they are still different paths
+        SetSpec { name: "non-utf8-segment([ff]-vs-root)", transfers: vec![upload_script(1, 3, &[&[0xff][..]], 0, nreq, 0, "PUT [ff]"), upload_script(1, 3, &none, 0, nreq, 0, "PUT []")] },
+        SetSpec { name: "non-utf8-segments([a,fe]-vs-[b,c3 28])", transfers: vec![download_script(1, &[b"a", &[0xfe][..]], 0, nreq, "GET [a,fe]"), download_script(1, &[b"b", &[0xc3, 0x28][..]], 0, nreq, "GET [b,c3 28]")] },
         // escapes a flattened key might use for '/' inside a segment
         SetSpec { name: "percent-escape([fw/slot]-vs-[fw%2Fslot])", transfers: vec![upload_script(1, 3, &[b"fw/slot"], 0, nreq, 0, "PUT [fw/slot]"), upload_script(1, 3, &[b"fw%2Fslot"], 0, nreq, 0, "PUT [fw%2Fslot]")] },
         SetSpec { name: "percent-escape-lowercase([a/b]-vs-[a%2fb])", transfers: vec![download_script(1, &[b"a/b"], 0, nreq, "GET [a/b]"), download_script(1, &[b"a%2fb"], 0, nreq, "GET [a%2fb]")] },
@@ -336,6 +347,9 @@ fn sets(nreq: usize, three: bool) -> Vec<SetSpec> {
 
 /// run one set under every schedule; `fine` splits exchanges into their two halves
 fn run_set(rep: &mut Report, set: &SetSpec, fine: bool, shard: u64, nshards: u64, counter: &mut u64, cap: u64) {
+    let longest_request = set.transfers.iter().flat_map(|t| t.requests.iter()).map(|r| r.bytes().len()).max().unwrap_or(0);
+    BENCH_BUDGET.with(|b| b.set(if longest_request + 60 > BUDGET { longest_request + 200 } else { BUDGET }));
+
     let mut solos = Vec::new();
     for t in &set.transfers {
         match solo(t) {
@@ -430,9 +444,81 @@ fn run_set(rep: &mut Report, set: &SetSpec, fine: bool, shard: u64, nshards: u64
     rep.sample(|| format!("set {} fine={}: {} schedules; solo transcript of {}: {}", set.name, fine, executed, set.transfers[0].label, solos[0].0.iter().map(|o| format!("{}{}", o.intercept_request, if o.app_called { "+app" } else { "" })).collect::<Vec<_>>().join(",")));
 }
 
+/// Conservation of keys: N requests with N pairwise different (endpoint, method, path) keys must
+/// leave N entries in the handler.  Entries are counted from outside, by the endpoint instances the
+/// handler keeps alive (calibrated on the first ten keys).  A key that is anything narrower than the
+/// three components themselves - a digest, a truncated or lossy encoding - loses entries once enough
+/// keys have been seen (a 32-bit digest: ~10 expected collisions among 300 000 keys).
+pub fn key_conservation(rep: &mut Report, n: u32, seed: u64) {
+    use crate::blockclient::{live_endpoints, AppReply, ReqSpec, Server};
+    rep.eval();
+    let witness = format!("{} requests (first block of an upload each) with pairwise different keys on one handler, seed {}", n, seed);
+    set_case_str(&witness);
+    let base = live_endpoints();
+    let mut server = Server::new(1200, std::time::Duration::from_secs(86_400));
+    let mut app = |_r: &coap_lite::CoapRequest<crate::blockclient::CEp>| AppReply::content(vec![]);
+    let mut per_entry = 0i64;
+    let alphabet: &[u8] = b"abcdefghijklmnopqrstuvwxyzABCDEFGHIJKLMNOPQRSTUVWXYZ0123456789-._~";
+    let mut x = seed | 1;
+    for k in 0..n {
+        // path: 1-3 segments of pseudo-random text, the running number in the last one (so keys differ)
+        x = x.wrapping_mul(6364136223846793005).wrapping_add(1442695040888963407);
+        let nseg = 1 + (x >> 60) as usize % 3;
+        let mut segs: Vec<String> = Vec::new();
+        let mut y = x;
+        for s in 0..nseg {
+            let len = 1 + (y >> 56) as usize % 7;
+            let mut t = String::new();
+            for _ in 0..len {
+                y = y.wrapping_mul(6364136223846793005).wrapping_add(1);
+                t.push(alphabet[(y >> 33) as usize % alphabet.len()] as char);
+            }
+            if s + 1 == nseg {
+                t.push_str(&format!("{}", k));
+            }
+            segs.push(t);
+        }
+        let refs: Vec<&str> = segs.iter().map(|s| s.as_str()).collect();
+        let mut q = ReqSpec::new(if k % 3 == 0 { 2 } else { 3 }, &refs);
+        q.mid = k as u16;
+        q.block1 = Some((0, true, 0));
+        q.payload = vec![k as u8; 16];
+        let ex = server.exchange(&q.bytes(), k % 5, &mut app);
+        if ex.reply_code() != Some(0x5f) {
+            rep.violation("key-conservation-setup", format!("request {} not continued: {}", k, ex.summary()), witness);
+            return;
+        }
+        if k == 9 {
+            per_entry = (live_endpoints() - base) / 10;
+            if per_entry < 1 {
+                rep.note("the handler keeps no endpoint instance per entry alive: entries cannot be counted from outside");
+                return;
+            }
+        }
+    }
+    let held = live_endpoints() - base;
+    if held != per_entry * n as i64 {
+        rep.violation(
+            "distinct-keys-share-an-entry",
+            format!("{} pairwise different keys left {} entries in the handler ({} endpoint instances, {} per entry)", n, held / per_entry, held, per_entry),
+            witness,
+        );
+        return;
+    }
+    rep.count("key_conservation_runs_held");
+    rep.add("distinct_keys_counted", n as u64);
+}
+
 pub fn run_c12(ctx: &mut Ctx) {
     let (level, shard, nshards) = (ctx.level, ctx.shard, ctx.nshards);
+    let kc_seed = ctx.seed;
+    let lane_name = ctx.lane.clone();
     let rep = &mut ctx.rep;
+    // (independent key sets on the first four shards; the lanes differ in their key sets too)
+    if (shard < 4 && level > 0) || shard == 0 {
+        let lane_salt = crate::rng::fnv(lane_name.as_bytes());
+        key_conservation(rep, match level { 0 => 300, 1 => 100_000, _ => 250_000 }, mix(&[kc_seed, shard, lane_salt, 12]));
+    }
     rep.exhaustive = true;
     set_case_str("C12 isolation schedules");
     let mut counter = 0u64;
